@@ -5,6 +5,7 @@ import re
 import shutil
 import subprocess
 import tempfile
+import threading
 import time
 from pathlib import Path
 
@@ -48,7 +49,7 @@ _RE_COV = re.compile(r'^<(\w+) line .*>: (\d+):(\d+)')
 
 
 def run_tlc(module, cfg_text, workdir, *, extra_modules=None, workers=16, env=None,
-            timeout=1800, args=(), deadlock=False, jvm=(), ok_exit=(0,), heap='8g'):
+            timeout=1800, args=(), deadlock=False, jvm=(), ok_exit=(0,), heap='8g', on_record=None):
     """Run TLC on spec `module` (a module name found in SPEC or in workdir).
 
     cfg_text is written to <workdir>/<module>.cfg.  extra_modules maps module
@@ -67,7 +68,7 @@ def run_tlc(module, cfg_text, workdir, *, extra_modules=None, workers=16, env=No
     cfg = workdir / (module + '.cfg')
     cfg.write_text(cfg_text)
     meta = tempfile.mkdtemp(prefix='meta_', dir=str(workdir))
-    cmd = ['java', '-XX:+UseParallelGC', '-Xmx' + heap, '-DTLA-Library=' + str(SPEC)]
+    cmd = ['java', '-XX:+UseParallelGC', '-Xss512m', '-Xmx' + heap, '-DTLA-Library=' + str(SPEC)]
     cmd += list(jvm)
     cmd += ['-cp', JAR + ':' + DEPS, 'tlc2.TLC', '-workers', str(workers), '-metadir', meta,
             '-noGenerateSpecTE', '-config', str(cfg)]
@@ -78,15 +79,45 @@ def run_tlc(module, cfg_text, workdir, *, extra_modules=None, workers=16, env=No
     e = dict(os.environ)
     e.update(env or {})
     t0 = time.time()
+    proc = subprocess.Popen(cmd, cwd=str(workdir), env=e, stdout=subprocess.PIPE, stderr=subprocess.STDOUT,
+                            text=True, errors='replace', bufsize=1 << 20)
+    records = []
+    garbled = 0
+    other = []
+    killer = threading.Timer(timeout, proc.kill)
+    killer.start()
     try:
-        p = subprocess.run(cmd, cwd=str(workdir), env=e, stdout=subprocess.PIPE, stderr=subprocess.STDOUT,
-                           timeout=timeout, text=True, errors='replace')
-    except subprocess.TimeoutExpired as ex:
-        subprocess.run(['pkill', '-f', 'tlc2[.]TLC.*' + re.escape(meta)], check=False)
-        raise TLCError('TLC timeout after %ss on %s' % (timeout, module)) from ex
+        for ln in proc.stdout:
+            if ln.startswith('"['):
+                try:
+                    rec = json.loads(json.loads(ln))
+                except ValueError:
+                    garbled += 1
+                    continue
+                if on_record is not None:
+                    on_record(rec)
+                else:
+                    records.append(rec)
+            else:
+                other.append(ln)
+                if len(other) > 20000:
+                    del other[2000:12000]
+        proc.wait()
     finally:
+        timed_out = not killer.is_alive() and proc.returncode not in (None,) and proc.returncode < 0
+        killer.cancel()
         shutil.rmtree(meta, ignore_errors=True)
+    if timed_out:
+        raise TLCError('TLC timeout after %ss on %s' % (timeout, module))
+
+    class _P:
+        pass
+    p = _P()
+    p.stdout = ''.join(other)
+    p.returncode = proc.returncode
     r = parse_output(p.stdout)
+    r.records = records
+    r.garbled = garbled
     r.wall = time.time() - t0
     r.returncode = p.returncode
     fatal = None
@@ -101,7 +132,9 @@ def run_tlc(module, cfg_text, workdir, *, extra_modules=None, workers=16, env=No
             fatal = marker
             break
     if fatal:
-        tail = '\n'.join(r.raw.splitlines()[-60:])
+        ls = r.raw.splitlines()
+        first = next((i for i, x in enumerate(ls) if 'Error:' in x or 'rror' in x), max(0, len(ls) - 30))
+        tail = '\n'.join(ls[first:first + 25])
         raise TLCError('%s in %s\n%s' % (fatal, module, tail))
     return r
 
@@ -183,3 +216,47 @@ def to_tla(v):
             return '[' + ', '.join('%s |-> %s' % (k, to_tla(x)) for k, x in v.items()) + ']'
         return '(' + ' @@ '.join('(%s :> %s)' % (to_tla(k), to_tla(x)) for k, x in v.items()) + ')'
     raise TypeError('cannot render %r' % (v,))
+
+
+def run_model(module, constants, workdir, *, init='Init', next_='Next', spec=None, invariants=(), properties=(),
+              view=None, constraint=None, action_constraint=None, postcondition=None, check_deadlock=False, **kw):
+    """Model-check `module` with constants given as TLA+ expression text (or Python values).
+
+    A wrapper module <module>_run is generated that EXTENDS module and defines one operator
+    per constant, so that tuples, records and negative numbers (which .cfg files reject) work.
+    """
+    wrap = module + '_run'
+    lines = ['---- MODULE %s ----' % wrap, 'EXTENDS %s' % module]
+    cfg = []
+    if constants:
+        cfg.append('CONSTANTS')
+    for name, v in constants.items():
+        text = v if isinstance(v, str) else to_tla(v)
+        lines.append('c_%s == %s' % (name, text))
+        cfg.append(' %s <- c_%s' % (name, name))
+    lines.append('====')
+    if spec:
+        cfg.append('SPECIFICATION %s' % spec)
+    else:
+        cfg.append('INIT %s' % init)
+        cfg.append('NEXT %s' % next_)
+    for i in invariants:
+        cfg.append('INVARIANT %s' % i)
+    for p in properties:
+        cfg.append('PROPERTY %s' % p)
+    if view:
+        cfg.append('VIEW %s' % view)
+    if constraint:
+        cfg.append('CONSTRAINT %s' % constraint)
+    if action_constraint:
+        cfg.append('ACTION_CONSTRAINT %s' % action_constraint)
+    if postcondition:
+        cfg.append('POSTCONDITION %s' % postcondition)
+    cfg.append('CHECK_DEADLOCK %s' % ('TRUE' if check_deadlock else 'FALSE'))
+    workdir = Path(workdir)
+    workdir.mkdir(parents=True, exist_ok=True)
+    return run_tlc(wrap, '\n'.join(cfg) + '\n', workdir, extra_modules={wrap: '\n'.join(lines) + '\n'}, **kw)
+
+
+class S(str):
+    """marks a string as raw TLA+ text for run_model constants (plain str is raw too; use tla_str for strings)"""
